@@ -230,10 +230,10 @@ finding, finding category, method, finding site and geometric purpose items are 
 theorem accessors_return_construction_values (p : Params) (hc : CleanNames p) :
     trackingUidOf (mkGroup p) = some p.trackingUid ∧ trackingIdOf (mkGroup p) = some p.trackingId ∧
     findingTypeOf (mkGroup p) = p.findingType ∧ findingCategoryOf (mkGroup p) = p.findingCategory ∧
-    findingSitesOf (mkGroup p) = p.sites ∧ measurementsOf (mkGroup p) = p.measurements ∧
+    methodOf (mkGroup p) = p.method ∧ findingSitesOf (mkGroup p) = p.sites ∧ measurementsOf (mkGroup p) = p.measurements ∧
     evaluationsOf (mkGroup p) = p.evaluations :=
   ⟨trackingUid_constructed p, trackingId_constructed p, findingType_constructed p hc, findingCategory_constructed p hc,
-   findingSites_constructed p hc, measurements_constructed p, evaluations_constructed p hc⟩
+   method_constructed p hc, findingSites_constructed p hc, measurements_constructed p, evaluations_constructed p hc⟩
 
 /-- **The reference type reported is the one constructed with** (planar and volumetric groups; measurement and
 evaluation names must not themselves be reference type names, the accessor looks at names only). -/
@@ -276,22 +276,22 @@ def exSEG : Ref := ⟨"1.2.840.10008.5.1.4.1.1.66.4", "9.1"⟩
 
 /-- six groups of mixed kinds, two of them without template identification -/
 def exReport : List Params := [
-  { kind := .planar, trackingUid := "1.1", trackingId := "a", findingCategory := some "C1|99V", findingType := some "F1|99V",
+  { kind := .planar, trackingUid := "1.1", trackingId := "a", findingCategory := some "C1|99V", findingType := some "F1|99V", method := some "MM|99V",
     sites := ["S1|99V"], measurements := [("M1|99V", "3.5")], evaluations := [("Q1|99V", "A1|99V")], purpose := none,
     ref := .region2d "POLYLINE" (exCT "7.1"), template := true },
-  { kind := .volumetric, trackingUid := "1.2", trackingId := "b", findingCategory := none, findingType := some "F1|99V",
+  { kind := .volumetric, trackingUid := "1.2", trackingId := "b", findingCategory := none, findingType := some "F1|99V", method := none,
     sites := ["S1|99V", "S2|99V"], measurements := [], evaluations := [], purpose := some "P1|99V",
     ref := .regions2d [("POLYLINE", exCT "7.1"), ("CIRCLE", exCT "7.2")], template := false },
-  { kind := .planar, trackingUid := "1.3", trackingId := "c", findingCategory := none, findingType := some "F2|99V",
+  { kind := .planar, trackingUid := "1.3", trackingId := "c", findingCategory := none, findingType := some "F2|99V", method := none,
     sites := [], measurements := [], evaluations := [], purpose := none,
     ref := .segframe exSEG (exCT "7.3"), template := false },
-  { kind := .image, trackingUid := "1.4", trackingId := "d", findingCategory := none, findingType := none,
+  { kind := .image, trackingUid := "1.4", trackingId := "d", findingCategory := none, findingType := none, method := none,
     sites := ["S1|99V"], measurements := [("M1|99V", "1.0"), ("M2|99V", "2.0")], evaluations := [], purpose := none,
     ref := .images [exCT "7.1"], template := true },
-  { kind := .volumetric, trackingUid := "1.5", trackingId := "e", findingCategory := none, findingType := some "F1|99V",
+  { kind := .volumetric, trackingUid := "1.5", trackingId := "e", findingCategory := none, findingType := some "F1|99V", method := none,
     sites := [], measurements := [], evaluations := [], purpose := none,
     ref := .segment exSEG [exCT "7.3", exCT "7.4"] none, template := true },
-  { kind := .planar, trackingUid := "1.6", trackingId := "f", findingCategory := none, findingType := some "F1|99V",
+  { kind := .planar, trackingUid := "1.6", trackingId := "f", findingCategory := none, findingType := some "F1|99V", method := none,
     sites := ["S1|99V"], measurements := [], evaluations := [], purpose := none,
     ref := .region3d "POLYGON", template := true }]
 
